@@ -56,6 +56,10 @@ type Episode struct {
 	NSigs   int          `json:"nsigs,omitempty"`  // signatures observed before the crash
 	AtIndex uint32       `json:"at_index,omitempty"` // wallet-xmss: index at which they are taken
 	Forms   []string     `json:"forms,omitempty"`  // restore paths exercised
+	// Traffic (wallet-xmss): the process that restores the wallet first serves
+	// some unrelated stateless calls (address checks, verifications incl. one with
+	// another Winternitz parameter on an input of this key's height)
+	Traffic bool `json:"traffic,omitempty"`
 	// ExportLate (wallet-xmss): the secrets are exported only after the key has
 	// been used to its last leaf; observations are taken at the start as usual
 	ExportLate bool `json:"export_late,omitempty"`
